@@ -100,6 +100,17 @@ def check(case, r, out):
         out.violate('verdict', 'verdict-vs-errors|%s' % ('true-with-errors' if r.verdict else 'false-without-errors'),
                     'verdict %r but the error tree holds %d errors %r' % (r.verdict, n, r.errors[:3]))
         return
+    # (1b) the log is a second report channel: nothing the engine reported there may be missing from the verdict, and the
+    # error handler must never have had to drop an error for want of a place to file it
+    logged = r.logtap.engine_errors() if r.logtap is not None else []
+    lost = [m for m in logged if 'No current segment in error_handler' in m]
+    if lost:
+        out.violate('verdict', 'error-lost|' + ('verdict-true' if r.verdict else 'verdict-false'),
+                    'the error handler dropped a reported error (verdict %r, %d errors in the tree): %s' % (r.verdict, n, lost[0][:160]))
+        return
+    if r.verdict is True and logged:
+        out.violate('verdict', 'verdict-vs-log|true-with-logged-errors', 'verdict True although the engine logged %d errors: %s' % (len(logged), logged[0][:160]))
+        return
     if r.ack is None or entry['fic'] == 'FA':
         return
     groups = WL.source_groups(case['doc'])
@@ -234,6 +245,33 @@ def check(case, r, out):
                             f['kind'], f['seg_id'], pos, f['ele'], f.get('comp'), f['code'],
                             [[x['seg'].values() if x['seg'] is not None else None] + [e_.values() for e_ in x['eles']] for x in tx['segs']][:4]))
             return
+    # (3c) the converse over the ground truth of the workload: when every defect of the document is a known, position-neutral
+    # fault, an itemised segment line names a faulted segment of its set (or its trailer) - no innocent segment is blamed
+    structural = [k for _, k in case.get('tfaults', []) if k in ('junk_gap', 'drop_se', 'drop_ge')]
+    if not structural and all(f.get('line') is not None for f in case.get('faults', [])):
+        faulted = {}
+        for f in case.get('faults', []):
+            set_ord, pos = 0, 0
+            for k, s_ in enumerate(case['doc']):
+                if s_['id'] == 'ST':
+                    set_ord += 1
+                    pos = 1
+                elif s_['id'] not in ('ISA', 'GS', 'GE', 'IEA'):
+                    pos += 1
+                if k == f['line']:
+                    break
+            faulted.setdefault(set_ord, set()).add((case['doc'][f['line']]['id'], str(pos)))
+        for n, tx in enumerate(txs):
+            for s_ in tx['segs']:
+                if s_['seg'] is None:
+                    continue
+                key = (s_['seg'].get(1), s_['seg'].get(2))
+                if key[0] in ('ST', 'SE') or key in faulted.get(n + 1, set()):
+                    continue
+                out.violate('ack', 'innocent-segment-itemised|%s' % (s_['seg'].get(4) or ''),
+                            'set %d: the acknowledgement blames %s at position %s (code %s), where no fault was injected; faults of the set: %r, trailer faults %r' % (
+                                n + 1, key[0], key[1], s_['seg'].get(4), sorted(faulted.get(n + 1, set())), case.get('tfaults')))
+                return
     # (4) addressing
     isas = [s for s in case['doc'] if s['id'] == 'ISA']
     gss = [s for s in case['doc'] if s['id'] == 'GS']
